@@ -409,10 +409,10 @@ func w0kind(p *load.Program, t types.Type) (ikind, bool) {
 
 func (c *checker) fieldToBytes(be *fieldBackend) {
 	name := fieldRel + ".(*Element).ToBytes"
-	c.plan(c.value, 2)
+	c.plan(c.value, 3)
 	c.plan(c.layout, 1)
 	c.plan(c.rng, 1)
-	fn := c.anchor(fieldRel, "(*Element).ToBytes", c.value, c.value, c.layout, c.rng)
+	fn := c.anchor(fieldRel, "(*Element).ToBytes", c.value, c.value, c.value, c.layout, c.rng)
 	if fn == nil {
 		return
 	}
@@ -454,7 +454,7 @@ func (c *checker) fieldToBytes(be *fieldBackend) {
 	}
 	if !out.OK() || len(bytes) != 32 {
 		_, why := out.Why(w)
-		for _, cl := range []string{": packing", ": carry chain"} {
+		for _, cl := range []string{": packing", ": carry chain", ": quotient"} {
 			c.fail(c.value, pos, name+cl, "not decided: the interpretation did not complete ("+why+")")
 		}
 		c.fail(c.layout, pos, name+": layout", "not decided: the interpretation did not complete ("+why+")")
@@ -497,6 +497,15 @@ func (c *checker) fieldToBytes(be *fieldBackend) {
 	if S.c.Sign() != 0 {
 		lmsgs = append(lmsgs, "the packed value has the constant term "+prettyRat(S.c))
 	}
+	for p := range groups {
+		for _, t := range w.rems[p].X.ts {
+			if vi := w.Var(t.v); vi.Kind == VOpaque {
+				lmsgs = append(lmsgs, fmt.Sprintf("the byte packed at %s is computed from %s: the bit fields combined there overlap or are not layouts", w.rems[p].Pos, vi.Name))
+				break
+			}
+		}
+	}
+	sort.Strings(lmsgs)
 	type grp struct {
 		parent int
 		base   int
@@ -547,6 +556,7 @@ func (c *checker) fieldToBytes(be *fieldBackend) {
 	if len(order) != be.n {
 		c.fail(c.value, pos, name+": packing", fmt.Sprintf("the packed bytes are built from %d masked words, want the %d limbs: the last-computed limb values cannot be identified", len(order), be.n))
 		c.fail(c.value, pos, name+": carry chain", "not decided: the last-computed limb values cannot be identified")
+		c.fail(c.value, pos, name+": quotient", "not decided: the last-computed limb values cannot be identified")
 		return
 	}
 	L := make([]*Int, be.n)
@@ -576,12 +586,67 @@ func (c *checker) fieldToBytes(be *fieldBackend) {
 		cmsgs = append(cmsgs, w.diffModP(weighted(reduced, be.offs), hin, "sum h_i*2^off_i after the initial weak reduction", "reduced limb", reduced, be.offs)...)
 	}
 	c.conclude(c.value, pos, name+": carry chain", cmsgs)
+
+	// value (quotient): Q = (X_0 - h_0)/19, the quantity whose multiple of 19 is
+	// added to limb 0, is the carry of h+19 out of bit 255:
+	//   2^255*Q + rho == h + 19  with rho in [0, 2^255)   and   h + 19 < 2^256.
+	// Together with the carry chain identity (sum out = h + 19*Q - 2^255*q',
+	// 0 <= sum out < 2^255, hence q' = floor((h+19*Q)/2^255)) this gives
+	// Q in {0,1}, Q = [h >= p] and, by the case split on Q, q' = Q, i.e.
+	// sum out = h - p*[h >= p]: the canonical representative.
+	var qmsgs []string
+	hBound := ""
+	if len(reduced) != be.n {
+		qmsgs = append(qmsgs, "not decided: the reduced limbs h_i cannot be located")
+	} else {
+		hsum := weighted(reduced, be.offs)
+		d0 := w.rems[order[0].parent].X.Sub(reduced[0].F())
+		Q := d0.Scale(big.NewRat(1, 19))
+		rho := hsum.Add(int64Form(19)).Sub(Q.Shl(255))
+		// Q must be integer-valued: it has to be the quotient of one of the
+		// recorded applications of the division identity
+		integral := false
+		for _, ri := range w.rems {
+			if ri.X.Sub(ri.R).Scale(new(big.Rat).SetFrac(bigOne, pow2(ri.K))).Equal(Q) {
+				integral = true
+				break
+			}
+		}
+		if !integral {
+			qmsgs = append(qmsgs, "undecided: the quantity added to limb 0, divided by 19, is not the quotient x>>k of a word computed by the function (it cannot be shown to be an integer)")
+		}
+		for _, t := range rho.ts {
+			if vi := w.Var(t.v); vi.Kind != VRem {
+				qmsgs = append(qmsgs, fmt.Sprintf("the quotient q whose multiple of 19 is added to limb 0 is not the carry of h+19 out of bit 255: h + 19 - 2^255*q depends on %s (coefficient %s) instead of being a remainder below 2^255", vi.Name, prettyRat(t.c)))
+				break
+			}
+		}
+		if integral && len(qmsgs) == 0 {
+			if r := w.rangeOf(rho); r.Lo.Sign() < 0 || r.Hi.Cmp(pow2m1(255)) > 0 {
+				qmsgs = append(qmsgs, fmt.Sprintf("the quotient q whose multiple of 19 is added to limb 0 is not the carry of h+19 out of bit 255: h + 19 - 2^255*q ranges over %s, want [0, 2^255)", r))
+			}
+		}
+		// h + 19 < 2^256 from the bounds of the reduced limbs
+		hmax := new(big.Int)
+		for i, l := range reduced {
+			hmax.Add(hmax, new(big.Int).Lsh(l.R.Hi, be.offs[i]))
+		}
+		if fr := w.rangeOf(hsum); fr.Hi.Cmp(hmax) < 0 {
+			hmax = fr.Hi
+		}
+		hBound = fmtBound(hmax)
+		if new(big.Int).Add(hmax, big.NewInt(19)).Cmp(pow2(256)) >= 0 {
+			qmsgs = append(qmsgs, fmt.Sprintf("the weakly reduced value can reach %s: h + 19 < 2^256 (hence q in {0,1}) is not established", hBound))
+		}
+	}
+	c.conclude(c.value, pos, name+": quotient", qmsgs)
 	c.sample(map[string]any{
 		"function": name, "radix": be.name,
-		"identity_packing":     "sum_k out[k]*2^(8k) == sum_i L_i*2^off_i where L_i = X_i mod 2^w_i are the limb values after the last carry/mask step (255 distinct bits, each at weight off_i+j; bit 255 of out[31] is 0)",
-		"identity_carry_chain": "sum_k out[k]*2^(8k) == sum_i h_i*2^off_i + (X_0 - h_0) - 2^255*floor(X_top/2^w_top), h = limbs after the initial weak reduction (== input mod p), X_0 - h_0 = the multiple of 19 added to limb 0",
-		"not_in_scope":         "that the quantity added to limb 0 is 19*q with q = [h >= p] and that the discarded carry equals q (correctness of the conditional subtraction of p)",
-		"out_bytes":            describeCells(w, []*Int{bytes[0], bytes[6], bytes[31]}),
-		"stats":                w.StatList(),
+		"identity_quotient":     "with Q = (X_0 - h_0)/19 (shown to be the quotient x>>k of a word of the function, hence an integer): 2^255*Q + rho == h + 19 for a remainder rho in [0,2^255) built from the remainder bits of the q chain, and h + 19 < 2^256 (derived bound of h: " + hBound + "); so Q = [h + 19 >= 2^255] = [h >= p]",
+		"identity_packing":      "sum_k out[k]*2^(8k) == sum_i L_i*2^off_i where L_i = X_i mod 2^w_i are the limb values after the last carry/mask step (255 distinct bits, each at weight off_i+j; bit 255 of out[31] is 0)",
+		"identity_carry_chain":  "sum_k out[k]*2^(8k) == sum_i h_i*2^off_i + (X_0 - h_0) - 2^255*floor(X_top/2^w_top), h = limbs after the initial weak reduction (== input mod p), X_0 - h_0 = the multiple of 19 added to limb 0",
+		"argued_not_mechanised": "that the discarded top carry q' equals Q: q' = floor((h+19*Q)/2^255) by the carry chain identity; Q = 0 gives h+19 < 2^255 hence q' = 0, Q = 1 gives 2^255 <= h+19 < 2^256 hence q' = 1 (case split on Q, outside the affine domain)",
+		"out_bytes":             describeCells(w, []*Int{bytes[0], bytes[6], bytes[31]}),
+		"stats":                 w.StatList(),
 	})
 }
